@@ -229,6 +229,10 @@ def units(ctx):
                     d.state_model[Ls[0]] = d.state_model[Ls[0]] + Lc[0]
             if nsen and rep % 2 == 1:
                 gen.unsort_readings(d)
+            if d.sensors and "shared0" not in d.sensors:
+                # every filter generated in this process has a sensor of the SAME name (with its own readings and expressions)
+                first = sorted(d.sensors)[0]
+                d.sensors = {("shared0" if kk == first else kk): vv for kk, vv in d.sensors.items()}
             out.append(d)
     return out
 
@@ -243,6 +247,12 @@ def run(ctx):
         pts = [gen.gen_point(ctx.rng, d) for _ in range(3 if ctx.quick else 8)]
         cal = pts[0]["cal"]
         pts = [dict(p, cal=cal) for p in pts]
+        # one process noise and one reading noise with more significant digits than any short literal carries
+        for nm in sorted(process)[:1]:
+            process[nm] = F(0.0123456789)
+        for key in sorted(sensor)[:1]:
+            for r_ in sorted(sensor[key])[:1]:
+                sensor[key][r_] = F(7.615435494667714e-05 * 1.2345678)
         cse = True if (d.transcend or getattr(d, "_force_cse", False)) else ctx.rng.random() < 0.6   # simplification only runs with CSE on
         max_dt = ctx.rng.choice([0.1, 0.05, 0.0123456789, 1.0 / 3.0, 2.5e-6])
         filt = ctx.rng.choice([5.0, None, 1.0 / 3.0, 2.125])
